@@ -241,3 +241,8 @@ def cmp_forms(c):
     if op in _MIRROR:
         out.append((c.comparators[0], _MIRROR[op], c.left))
     return out
+
+
+def real(body):
+    """Statements of a body without no-ops (pass, bare string/constant expressions)."""
+    return [s for s in body if not isinstance(s, ast.Pass) and not (isinstance(s, ast.Expr) and isinstance(s.value, ast.Constant))]
